@@ -1,7 +1,7 @@
 (** C05 — packet protection round-trips, matches RFC 9001, rejects tampering.
     Only statements live here; each is closed by [exact] of a lemma proved elsewhere. *)
 From Coq Require Import List ZArith Sorted.
-From V Require Import Gen.Params PktProt.PktNum PktProt.PktNumProofs PktProt.KeyPhase PktProt.KeyPhaseProofs PktProt.KeyDerive PktProt.KeyDeriveProofs PktProt.KeyPhaseRun PktProt.KeyPhaseWindow PktProt.KeyPhaseExamples PktProt.Protect PktProt.ProtectProofs PktProt.ProtectExamples.
+From V Require Import Gen.Params PktProt.PktNum PktProt.PktNumProofs PktProt.KeyPhase PktProt.KeyPhaseProofs PktProt.KeyDerive PktProt.KeyDeriveProofs PktProt.KeyPhaseRun PktProt.KeyPhaseWindow PktProt.KeyPhaseSys PktProt.KeyPhaseSysProofs PktProt.KeyPhaseExamples PktProt.Protect PktProt.ProtectProofs PktProt.ProtectExamples.
 Import ListNotations.
 Open Scope Z_scope.
 
@@ -189,3 +189,48 @@ Theorem C05_key_update_derivation_rfc :
     hp_key expand_label v2 keyLen ts = expand_label ts lh keyLen.
 Proof. exact derivation_rfc. Qed.
 Print Assumptions C05_key_update_derivation_rfc.
+
+(** (c) Two-endpoint closure.  Two conformant updatableAEAD endpoints (the KeyPhase model,
+    twice) and a network in which every packet ever sealed may be delivered any number of
+    times, in any order, or never; ACKs travel inside packets and are processed after a
+    successful Open; each side may call KeyPhase() (and thereby initiate an update whenever
+    the code allows it), Seal, and SetHandshakeConfirmed at any time.  For every AEAD that
+    opens what it sealed and fails under a different key, for every update-interval
+    configuration and EVERY interleaving [ops], in the state reached:
+    - no packet in flight is more than one generation ahead of its receiver;
+    - a packet whose generation is the receiver's current one, or the next one, or the
+      previous one while the previous keys are still kept (not yet dropped by the 3*PTO
+      timer), opens to exactly its plaintext;
+    - whatever opens, opens to the packet's own plaintext, and the ACK it carries is never
+      answered with KEY_UPDATE_ERROR. *)
+Theorem C05_keyphase_histories :
+  forall (ctext ptext adata : Type)
+         (aead_seal : key -> Z -> adata -> ptext -> ctext)
+         (aead_open : key -> Z -> adata -> ctext -> option ptext),
+    (forall k n ad p, aead_open k n ad (aead_seal k n ad p) = Some p) ->
+    (forall k k' n ad p, k <> k' -> aead_open k n ad (aead_seal k' n ad p) = None) ->
+    forall cfg lim n0 ops, (forall x, 0 <= n0 x) ->
+      let s := srun ctext ptext adata aead_seal aead_open cfg (sinit ptext adata lim n0) ops in
+      forall i p now pto3, nth_error (sent s) i = Some p ->
+        let R := ep (sd s (negb (p_from p))) in
+        let r := keyPhase R in
+        let res := ua_open ctext ptext adata aead_open R now pto3 (p_pn p) (p_gen p mod 2) (p_ad p)
+                           (p_ct ctext ptext adata aead_seal p) in
+        p_gen p <= r + 1 /\
+        ((p_gen p = r \/ p_gen p = r + 1 \/ (p_gen p = r - 1 /\ prevRcvAEAD R <> None /\ dropped_now R now = false)) ->
+         fst res = OpenOK (p_pt p)) /\
+        (forall pt', fst res = OpenOK pt' ->
+           pt' = p_pt p /\ (0 <= p_ack p -> fst (ua_set_largest_acked (snd res) (p_ack p)) = false)).
+Proof. exact keyphase_histories. Qed.
+Print Assumptions C05_keyphase_histories.
+
+Example C05_keyphase_histories_nonvacuous :
+  (forall k n ad p, sym_open k n ad (sym_seal k n ad p) = Some p) /\
+  (forall k k' n ad p, k <> k' -> sym_open k n ad (sym_seal k' n ad p) = None) /\
+  (exists p, nth_error (sent sys_example) 1 = Some p /\ p_from p = false /\
+             p_gen p = keyPhase (ep (sd sys_example true)) - 1 /\
+             prevRcvAEAD (ep (sd sys_example true)) <> None /\ dropped_now (ep (sd sys_example true)) 20 = false) /\
+  (exists p, nth_error (sent sys_example) 2 = Some p /\ p_from p = true /\
+             p_gen p = keyPhase (ep (sd sys_example false)) + 1).
+Proof. exact (conj sym_open_seal (conj sym_open_wrong_key sys_example_ok)). Qed.
+Print Assumptions C05_keyphase_histories_nonvacuous.
